@@ -954,3 +954,31 @@ Qed.
 (* isclose alpha 1 does hold for some alpha < 1, and fails for others *)
 Example near_one_example : isclose (999999 # 1000000) 1 = true /\ isclose (1 # 2) 1 = false.
 Proof. split; vm_compute; reflexivity. Qed.
+
+(* ------------------------------------------------------------------------------------------------ corollaries for the implementation *)
+(* the implementation inherits monotonicity and the range from the specification, up to the two resolutions *)
+Lemma impl_mono l a1 a2 V :
+  is_dist l -> 0 < a1 -> a1 <= a2 -> a2 <= 1 -> isclose a1 1 = false -> isclose a2 1 = false -> abs_values_le V l ->
+  exists r1 r2, get_expectation l a1 = Ok r1 /\ get_expectation l a2 = Ok r2 /\
+                r1 <= r2 + (rtol + atol / a1) * V + (rtol + atol / a2) * V.
+Proof.
+  intros D H1 H12 H2 C1 C2 HV.
+  assert (H2' : 0 < a2) by lra. assert (H1' : a1 <= 1) by lra.
+  destruct (exact_or_close l a1 V D H1 H1' C1 HV) as [r1 [E1 B1]].
+  destruct (exact_or_close l a2 V D H2' H2 C2 HV) as [r2 [E2 B2]].
+  exists r1, r2. split; [exact E1|]. split; [exact E2|].
+  pose proof (cvar_mono l a1 a2 D H1 H12 H2) as M.
+  apply Qabs_Qle_condition in B1. apply Qabs_Qle_condition in B2. lra.
+Qed.
+
+Lemma impl_range l alpha lo hi V :
+  is_dist l -> 0 < alpha -> alpha <= 1 -> isclose alpha 1 = false -> values_within lo hi l -> abs_values_le V l ->
+  exists r, get_expectation l alpha = Ok r /\
+            lo - (rtol + atol / alpha) * V <= r /\ r <= expectation l + (rtol + atol / alpha) * V.
+Proof.
+  intros D H0 H1 C W HV.
+  destruct (exact_or_close l alpha V D H0 H1 C HV) as [r [E B]].
+  exists r. split; [exact E|].
+  destruct (cvar_bounds l alpha lo hi D H0 H1 W) as [L U].
+  apply Qabs_Qle_condition in B. lra.
+Qed.
